@@ -677,7 +677,10 @@ where
                 .map(|()| {
                     m.add(&Mean::<A>::from_iter([2.0, 3.0].into_iter().filter(|v| *v > 0.0)));
                 })
-                .and_then(|()| m.try_extend([&t, &t]));
+                .and_then(|()| m.try_extend([&t, &t]))
+                // values that write no observation / several observations
+                .and_then(|()| m.record_value(&Option::<Tagged<A>>::None))
+                .and_then(|()| m.record_value(&Distribution::<Tagged<A>>::from_iter([Tagged::new(x), Tagged::new(x)])));
             mean_calls(r.map(|()| m.with_unit::<B>()))
         }
         Op::StringPlain => record(&StrMetric::<A>(PhantomData).with_unit::<B>()),
@@ -785,10 +788,10 @@ fn pair_run(st: &mut St, an: &'static str, bn: &'static str, f: PairFns) {
         // (occurrence counts near u64::MAX would overflow the Mean's own counter when x is added
         // four times: the counter is not C19's subject)
         if occ < (1 << 60) {
-            // the same mean grown step by step: 1.0, x, x, (2.0 + 3.0), x, x
-            let total = ((((0.0 + 1.0) + val) + val) + (0.0 + 2.0 + 3.0)) + val + val;
+            // the same mean grown step by step: 1.0, x, x, (2.0 + 3.0), x, x, nothing, (x, x)
+            let total = ((((0.0 + 1.0) + val) + val) + (0.0 + 2.0 + 3.0)) + val + val + val + val;
             let calls = emit(Op::UnitOverMeanGrownStepwise, &one, none);
-            check_metric(st, "unit-over-mean-grown-stepwise", &from, &to, ratio, true, &[Observation::Repeated { total, occurrences: 1 + occ + occ + 2 + occ + occ }], &calls, false, 8.0);
+            check_metric(st, "unit-over-mean-grown-stepwise", &from, &to, ratio, true, &[Observation::Repeated { total, occurrences: 1 + occ + occ + 2 + occ + occ + occ + occ }], &calls, false, 8.0);
         }
         if let Observation::Repeated { total, occurrences } = x {
             if (1..=8).contains(&occurrences) {
